@@ -10,22 +10,35 @@ namespace ClairModel.TarFS
 
 /-! ### Contained names -/
 
-/-- A name that stays inside the root: "." or a relative path whose elements
-    are not empty, "." or "..". -/
-def Contained (k : Bytes) : Prop := k = dotP ∨ ∀ e ∈ splitSlash k, GoodElem e
+/-- A name that stays inside the root and can be asked for through io/fs:
+    `fs.ValidPath` — "." or a relative path whose elements are not empty, "."
+    or "..", valid UTF-8. -/
+def Contained (k : Bytes) : Prop := validPath k = true
 
-theorem contained_of_validPath {k : Bytes} (h : validPath k = true) : Contained k := by
-  unfold validPath at h
-  simp only [Bool.and_eq_true, Bool.or_eq_true, decide_eq_true_eq, List.all_eq_true] at h
-  rcases h.2 with h | h
-  · exact Or.inl h
-  · refine Or.inr fun e he => ?_
-    have := h e he
-    simp at this
-    exact ⟨this.1.1, this.1.2, this.2⟩
+theorem contained_iff {k : Bytes} :
+    Contained k ↔ ValidU k ∧ (k = dotP ∨ ∀ e ∈ splitSlash k, GoodElem e) := by
+  unfold Contained validPath
+  simp only [Bool.and_eq_true, Bool.or_eq_true, decide_eq_true_eq, List.all_eq_true, validUtf8_iff]
+  constructor
+  · rintro ⟨hu, h⟩
+    refine ⟨hu, ?_⟩
+    rcases h with h | h
+    · exact Or.inl h
+    · refine Or.inr fun e he => ?_
+      have := h e he
+      simp at this
+      exact ⟨this.1.1, this.1.2, this.2⟩
+  · rintro ⟨hu, h⟩
+    refine ⟨hu, ?_⟩
+    rcases h with h | h
+    · exact Or.inl h
+    · refine Or.inr fun e he => ?_
+      have := h e he
+      simp [this.1, this.2.1, this.2.2]
 
-theorem contained_normPath (p : Bytes) : Contained (normPath p) :=
-  contained_of_validPath (normPath_valid p)
+theorem contained_of_validPath {k : Bytes} (h : validPath k = true) : Contained k := h
+
+theorem contained_normPath (p : Bytes) : Contained (normPath p) := normPath_valid p
 
 theorem joinSlash_splitSlash (k : Bytes) : joinSlash (splitSlash k) = k := by
   induction k with
@@ -136,9 +149,11 @@ theorem joinSlash_head_ne {cs : List Bytes} (hne : cs ≠ []) (h : ∀ c ∈ cs,
       | cons d ds => exact ⟨x, xr ++ SL :: joinSlash (d :: ds), by simp [joinSlash], hx⟩
 
 /-- `path.Dir` of a contained name is contained. -/
-theorem contained_dirOf {k : Bytes} (h : Contained k) : Contained (dirOf k) := by
+theorem contained_dirOf {k : Bytes} (hk0 : Contained k) : Contained (dirOf k) := by
+  obtain ⟨hu, h⟩ := contained_iff.1 hk0
+  clear hk0
   rcases h with rfl | h
-  · left; decide
+  · show validPath (dirOf dotP) = true; decide
   · have hns := splitSlash_noSlash k
     have hne := splitSlash_ne_nil k
     have hk := joinSlash_splitSlash k
@@ -152,8 +167,8 @@ theorem contained_dirOf {k : Bytes} (h : Contained k) : Contained (dirOf k) := b
     · subst hi
       simp [joinSlash] at hk
       subst hk
-      left
-      simp [dirOf, splitDir_noSlash c hc, clean]
+      have : dirOf c = dotP := by simp [dirOf, splitDir_noSlash c hc, clean]
+      rw [this]; show validPath dotP = true; decide
     · rw [joinSlash_snoc init c hi] at hk
       subst hk
       have hinit : ∀ x ∈ init, GoodElem x ∧ SL ∉ x := fun x hx => ⟨h x (by simp [hx]), hns x (by simp [hx])⟩
@@ -169,12 +184,10 @@ theorem contained_dirOf {k : Bytes} (h : Contained k) : Contained (dirOf k) := b
         simp only [hx, decide_false, cleanComps, List.foldl_append,
           foldl_cleanStep_good false init (fun c hc => (hinit c hc).1)]
         simp [cleanStep, hj]
-      right
+      apply contained_iff.2
       unfold dirOf
       rw [splitDir_snoc _ c hc, hcl, splitSlash_joinSlash init hi (fun c hc => (hinit c hc).2)]
-      exact fun e he => (hinit e he).1
-
-
+      exact ⟨(ValidU_split_slash _ hu _ c rfl).1, Or.inr fun e he => (hinit e he).1⟩
 
 /-! ### The invariant -/
 
@@ -215,7 +228,7 @@ structure Inv (fs : FS) : Prop where
   keys : ∀ x ∈ fs.lookup, Contained x.1
   inos : ∀ n ∈ fs.inodes, InoOK n
 
-theorem contained_dot : Contained dotP := Or.inl rfl
+theorem contained_dot : Contained dotP := by show validPath dotP = true; decide
 
 theorem inoOK_empty : InoOK emptyInode := ⟨contained_dot, by simp [emptyInode]⟩
 
@@ -279,16 +292,18 @@ theorem resolve_inv (mk : Option (FS → Bytes → FS)) (hmk : MkOK? mk) (last :
       · split <;> exact h
 
 
-def OKElem (n : Bytes) : Prop := GoodElem n ∧ SL ∉ n
+def OKElem (n : Bytes) : Prop := GoodElem n ∧ SL ∉ n ∧ ValidU n
 
-theorem splitSlash_single {n : Bytes} (h : SL ∉ n) : splitSlash n = [n] := by
-  have := splitSlash_append_noSlash n [] h
-  simpa [splitSlash] using this
+/-- A path under construction: valid UTF-8 with good elements. -/
+def GoodPath (b : Bytes) : Prop := ValidU b ∧ ∀ e ∈ splitSlash b, GoodElem e
+
+theorem GoodPath.contained {b : Bytes} (h : GoodPath b) : Contained b :=
+  contained_iff.2 ⟨h.1, Or.inr h.2⟩
 
 theorem walkLoop_inv (mk : Option (FS → Bytes → FS)) (hmk : MkOK? mk) :
     ∀ (comps : List Bytes) (fs : FS) (cur : Nat) (built : Bytes) (first : Bool), Inv fs →
       ((comps = [dotP] ∧ first = true) ∨
-        ((first = true ∨ ∀ e ∈ splitSlash built, GoodElem e) ∧ ∀ x ∈ comps, OKElem x)) →
+        ((first = true ∨ GoodPath built) ∧ ∀ x ∈ comps, OKElem x)) →
       Inv (walkLoop mk fs cur built first comps).1 := by
   intro comps
   induction comps with
@@ -297,7 +312,7 @@ theorem walkLoop_inv (mk : Option (FS → Bytes → FS)) (hmk : MkOK? mk) :
     intro fs cur built first h H
     -- the name built for this element is contained, and good when more elements follow
     have hb : Contained (if first = true then n else built ++ SL :: n) ∧
-        (rest ≠ [] → (∀ e ∈ splitSlash (if first = true then n else built ++ SL :: n), GoodElem e) ∧
+        (rest ≠ [] → GoodPath (if first = true then n else built ++ SL :: n) ∧
           ∀ x ∈ rest, OKElem x) := by
       rcases H with ⟨hc, hf⟩ | ⟨hf, hall⟩
       · simp at hc
@@ -307,22 +322,24 @@ theorem walkLoop_inv (mk : Option (FS → Bytes → FS)) (hmk : MkOK? mk) :
         have hrest : ∀ x ∈ rest, OKElem x := fun x hx => hall x (by simp [hx])
         by_cases hfirst : first = true
         · simp only [hfirst, if_true]
-          have : ∀ e ∈ splitSlash n, GoodElem e := by
-            rw [splitSlash_single hn.2]; intro e he; simp at he; subst he; exact hn.1
-          exact ⟨Or.inr this, fun _ => ⟨this, hrest⟩⟩
-        · have hbuilt : ∀ e ∈ splitSlash built, GoodElem e := by
+          have : GoodPath n := by
+            refine ⟨hn.2.2, ?_⟩
+            rw [splitSlash_single hn.2.1]; intro e he; simp at he; subst he; exact hn.1
+          exact ⟨this.contained, fun _ => ⟨this, hrest⟩⟩
+        · have hbuilt : GoodPath built := by
             rcases hf with hf | hf
             · exact absurd hf hfirst
             · exact hf
           simp only [hfirst, if_false]
-          have : ∀ e ∈ splitSlash (built ++ SL :: n), GoodElem e := by
-            rw [splitSlash_snoc built n hn.2]
+          have : GoodPath (built ++ SL :: n) := by
+            refine ⟨ValidU_append hbuilt.1 (ValidU_ascii (by decide) hn.2.2), ?_⟩
+            rw [splitSlash_snoc built n hn.2.1]
             intro e he
             simp at he
             rcases he with he | rfl
-            · exact hbuilt e he
+            · exact hbuilt.2 e he
             · exact hn.1
-          exact ⟨Or.inr this, fun _ => ⟨this, hrest⟩⟩
+          exact ⟨this.contained, fun _ => ⟨this, hrest⟩⟩
     -- continue with the rest
     have hcont : ∀ (fs' : FS) (c : Nat), Inv fs' →
         Inv (walkLoop mk fs' c (if first = true then n else built ++ SL :: n) false rest).1 := by
@@ -350,11 +367,11 @@ theorem walkTo_inv (mk : Option (FS → Bytes → FS)) (hmk : MkOK? mk) (fs : FS
     (h : Inv fs) (hp : Contained p) : Inv (walkTo mk fs p).1 := by
   unfold walkTo
   apply walkLoop_inv mk hmk _ fs _ [] true h
+  obtain ⟨hu, hp⟩ := contained_iff.1 hp
   rcases hp with rfl | hp
   · left; exact ⟨by decide, rfl⟩
   · right
-    exact ⟨Or.inl rfl, fun x hx => ⟨hp x hx, splitSlash_noSlash p x hx⟩⟩
-
+    exact ⟨Or.inl rfl, fun x hx => ⟨hp x hx, splitSlash_noSlash p x hx, ValidU_elems _ p (Nat.le_refl _) hu x hx⟩⟩
 
 theorem addEnt_inv (mkdir : FS → Bytes → FS) (hmk : MkOK mkdir) (i : Nat) (name : Bytes) :
     ∀ (fuel : Nat) (fs : FS) (cyc : List Nat) (dir : Bytes), Inv fs → Contained dir →
